@@ -58,6 +58,8 @@ pub struct FrameRec {
     /// number of copies delivered (0 = dropped)
     pub copies: u32,
     pub delayed_ms: u64,
+    /// extra delay of each delivered copy
+    pub delays: Vec<u64>,
     pub corrupted: bool,
 }
 
@@ -325,6 +327,7 @@ impl SimCtl for Proxy {
                 bytes: if s.keep_frame_bytes { frame.bytes.clone() } else { vec![] },
                 copies,
                 delayed_ms,
+                delays: verdict.copies.iter().map(|c| c.delay.as_millis() as u64).collect(),
                 corrupted,
             });
             verdict
